@@ -9,6 +9,7 @@
 //   - ioutil.ReadFile/WriteFile, filepath.Glob -> vos.*
 //   - time.Now/Since/Sleep     -> vtime.*
 //   - debug.FreeOSMemory       -> vtime.Noop
+//   - package memcache: x.Chan <- v / <-x.Chan (request-limiter tokens) -> vsched.ChanSendInt / ChanRecvInt
 //
 // Any construct it does not understand makes it exit non-zero (the check then
 // exits 2 = broken machinery, never a verdict).
@@ -234,6 +235,12 @@ func (r *rw) walk(root ast.Node) {
 				r.changed = true
 			}
 			return true
+		case *ast.AssignStmt:
+			for i, e := range x.Rhs {
+				if c := r.tokenChanRecv(e); c != nil {
+					x.Rhs[i] = c
+				}
+			}
 		case *ast.BlockStmt:
 			r.rewriteList(x.List)
 		case *ast.CaseClause:
@@ -250,10 +257,16 @@ func (r *rw) walk(root ast.Node) {
 		}
 		return true
 	})
-	// verify no go statement is left
+	// verify no go statement (and no raw operation on the token channel) is left
 	ast.Inspect(root, func(n ast.Node) bool {
 		if gs, ok := n.(*ast.GoStmt); ok {
 			fatal(fmt.Errorf("%s: go statement at %s not rewritten", r.path, r.fset.Position(gs.Pos())))
+		}
+		if ss, ok := n.(*ast.SendStmt); ok && r.isTokenChan(ss.Chan) {
+			fatal(fmt.Errorf("%s: send on the token channel at %s not rewritten", r.path, r.fset.Position(ss.Pos())))
+		}
+		if u, ok := n.(*ast.UnaryExpr); ok && u.Op == token.ARROW && r.isTokenChan(u.X) {
+			fatal(fmt.Errorf("%s: receive from the token channel at %s not rewritten", r.path, r.fset.Position(u.Pos())))
 		}
 		return true
 	})
@@ -264,7 +277,30 @@ func (r *rw) rewriteList(list []ast.Stmt) {
 		if gs, ok := s.(*ast.GoStmt); ok {
 			list[i] = r.rewriteGo(gs)
 		}
+		if ss, ok := s.(*ast.SendStmt); ok && r.isTokenChan(ss.Chan) {
+			// x.Chan <- v  ->  vsched.ChanSendInt(x.Chan, v): the request limiter's token channel becomes a blocking scheduling point
+			list[i] = &ast.ExprStmt{X: &ast.CallExpr{Fun: &ast.SelectorExpr{X: ast.NewIdent("vsched"), Sel: ast.NewIdent("ChanSendInt")}, Args: []ast.Expr{ss.Chan, ss.Value}}}
+			r.need["vsched"] = true
+			r.changed = true
+		}
 	}
+}
+
+// isTokenChan: the "Chan" field of a ReqLimiter (package memcache only).
+func (r *rw) isTokenChan(e ast.Expr) bool {
+	se, ok := e.(*ast.SelectorExpr)
+	return ok && se.Sel.Name == "Chan" && r.file.Name.Name == "memcache"
+}
+
+// tokenChanRecv: <-x.Chan  ->  vsched.ChanRecvInt(x.Chan)
+func (r *rw) tokenChanRecv(e ast.Expr) ast.Expr {
+	u, ok := e.(*ast.UnaryExpr)
+	if !ok || u.Op != token.ARROW || !r.isTokenChan(u.X) {
+		return nil
+	}
+	r.need["vsched"] = true
+	r.changed = true
+	return &ast.CallExpr{Fun: &ast.SelectorExpr{X: ast.NewIdent("vsched"), Sel: ast.NewIdent("ChanRecvInt")}, Args: []ast.Expr{u.X}}
 }
 
 func isLiteralArg(e ast.Expr) bool {
